@@ -1,15 +1,18 @@
 #!/bin/bash
 # usage: try_seed.sh <seed-dir-name> <property> [tier]
-# Applies /verif/seeded/<seed>/patch.diff to /repo, runs the property's check, reverts.
+# Applies /verif/seeded/<seed>/patch.diff (or its re-based patch_head.diff) to a SCRATCH worktree of
+# /repo's HEAD (outside /repo and /verif; /repo itself is never touched), runs the property's check
+# against it (VERIF_REPO), and removes the worktree.
 S=/verif/seeded/$1/patch.diff
-# a seed whose patch no longer applies to HEAD may carry a re-based variant
 [ -f /verif/seeded/$1/patch_head.diff ] && S=/verif/seeded/$1/patch_head.diff
-if ! git -C /repo diff --quiet; then echo "repo dirty, refusing"; exit 3; fi
-if ! git -C /repo apply "$S" 2>/dev/null; then
-  if ! git -C /repo apply -3 "$S" 2>/dev/null; then echo "SEED $1 does not apply"; git -C /repo reset -q --hard HEAD; exit 4; fi
-  git -C /repo reset -q
+WT=/tmp/tryseed-wt-$$
+git -C /repo worktree add --detach $WT HEAD -q || exit 3
+cleanup(){ git -C /repo worktree remove --force $WT >/dev/null 2>&1; }
+if ! git -C $WT apply "$S" 2>/dev/null; then
+  if ! git -C $WT apply -3 "$S" 2>/dev/null; then echo "SEED $1 does not apply"; cleanup; exit 4; fi
+  git -C $WT reset -q
 fi
-cd /verif && ./check $2 --tier ${3:-quick} > /tmp/try_seed_$1_$2.out 2>&1; rc=$?
-git -C /repo checkout -- .
-echo "SEED $1 check $2 -> exit $rc"; grep -E "^(VIOLATION|INCONCLUSIVE|OK|KNOWN)" /tmp/try_seed_$1_$2.out | head -8
+cd /verif && VERIF_REPO=$WT ./check $2 --tier ${3:-quick} > /tmp/try_seed_$1_$2.out 2>&1; rc=$?
+cleanup
+echo "SEED $1 check $2 -> exit $rc"; grep -E "^(VIOLATION|INCONCLUSIVE|OK|KNOWN)" /tmp/try_seed_$1_$2.out | cut -c1-260 | head -8
 exit 0
